@@ -19,7 +19,9 @@ META = dict(
                 "booleans, as integers >= 0, or as the literals \"\"/\"marked\"); share_to_win is a symbolic real in (0,1). The solver decides "
                 "(i) all winner-v-loser assorter means > 1/2 iff every winner has strictly more votes than every loser (k = 1, 2 winners, "
                 "style on and off); (ii) super-majority: mean > 1/2 iff winner's valid votes > f * valid votes; (iii) 0 <= assort <= "
-                "upper_bound per card; (iv) the margin from Contest.tally + find_margin_from_tally equals 2*mean - 1 over the same cards.",
+                "upper_bound per card; (iv) the margin from Contest.tally + find_margin_from_tally equals 2*mean - 1 over the same cards. Also the "
+                "other construction routes of the super-majority assertion (share taken from the contest; make_all_assertions) and two contests "
+                "tallied together in both orders (marks in one contest leave the other contest's tally alone).",
     bounds={"quick": {"cards": "3 (boolean marks), 2 (integer / string marks)", "candidates": 3, "winner sets": "k = 1, 2", "encodings": "bool, int, literal strings on one card"},
             "thorough": {"cards": "4 (boolean), 3 (integer / string)", "candidates": 3, "encodings": "bool, int, literal strings on one card"}},
     outside=["more cards/candidates than the bound (the statements are sums over cards)", "string encodings other than \"\" and \"marked\""],
